@@ -411,6 +411,12 @@ bool Plan::RefreshDyndepDependents(DependencyScan* scan,
     UnmarkDependents(node, &dependents);
   }
 
+  // RecomputeDirty only ever sets the dirty flag.  The first scan judged
+  // these nodes without the dyndep information (e.g. without the restat
+  // binding it may provide), so forget its verdict before scanning again.
+  for (Node* n : dependents)
+    n->set_dirty(false);
+
   // Update the dirty state of all dependents and check if their edges
   // have become wanted.
   for (set<Node*>::iterator i = dependents.begin();
@@ -436,8 +442,23 @@ bool Plan::RefreshDyndepDependents(DependencyScan* scan,
         }
       }
     }
-    if (!n->dirty())
+    if (!n->dirty()) {
+      // The edge may have been wanted on the strength of the first scan.
+      // With dyndep information its outputs are now known to be clean, so
+      // we no longer want it.
+      Edge* clean_edge = n->in_edge();
+      map<Edge*, Want>::iterator want_c = want_.find(clean_edge);
+      if (want_c != want_.end() && want_c->second == kWantToStart) {
+        want_c->second = kWantNothing;
+        --wanted_edges_;
+        if (!clean_edge->is_phony()) {
+          --command_edges_;
+          if (builder_)
+            builder_->status_->EdgeRemovedFromPlan(clean_edge);
+        }
+      }
       continue;
+    }
 
     // This edge was encountered before.  However, we may not have wanted to
     // build it if the outputs were not known to be dirty.  With dyndep
